@@ -1093,6 +1093,31 @@ func c13HasUnsortedKids(nodes []c13Node) bool {
 	return false
 }
 
+// c13WithoutSkipped: the expectation without the FIFOs and sockets tar() skips.
+func c13WithoutSkipped(want map[string]*c13Want, order []string) (map[string]*c13Want, []string) {
+	out := map[string]*c13Want{}
+	for p, w := range want {
+		cp := *w
+		out[p] = &cp
+	}
+	var kept []string
+	for _, p := range order {
+		w := out[p]
+		if w.Type == "fifo" || w.Type == "socket" {
+			parent := ""
+			if i := strings.LastIndex(p, "/"); i >= 0 {
+				parent = p[:i]
+			}
+			if pw, ok := out[parent]; ok && p != "" {
+				pw.Kids--
+			}
+			continue
+		}
+		kept = append(kept, p)
+	}
+	return out, kept
+}
+
 // c13Judge turns validator output + listing comparison into failures.
 func c13Judge(r *vh.Result, c *c13Case, out *c13PyOut, want map[string]*c13Want, order []string, what string) {
 	// FIFOs and sockets are skipped by tar(): they are expected to be absent from the archive
@@ -1100,24 +1125,9 @@ func c13Judge(r *vh.Result, c *c13Case, out *c13PyOut, want map[string]*c13Want,
 	for p, w := range want {
 		if w.Type == "fifo" || w.Type == "socket" {
 			special[p] = w.Type
-			parent := ""
-			if i := strings.LastIndex(p, "/"); i >= 0 {
-				parent = p[:i]
-			}
-			if pw, ok := want[parent]; ok && p != "" {
-				pw.Kids--
-			}
 		}
 	}
-	if len(special) > 0 {
-		kept := order[:0:0]
-		for _, p := range order {
-			if special[p] == "" {
-				kept = append(kept, p)
-			}
-		}
-		order = kept
-	}
+	want, order = c13WithoutSkipped(want, order)
 	if !out.OK {
 		c.Errors = out.Errors
 		if len(c.Errors) > 8 {
@@ -1218,6 +1228,13 @@ func c13CheckArchive(a vh.Args, o *vh.Oracle, r *vh.Result, c *c13Case, id int) 
 		}
 		if err := c13ModelArchive(o, r, c, work, catar, out, spec); err != nil {
 			return err
+		}
+		// other spellings of the source directory (small and medium trees; the CLI for some)
+		if len(c.Nodes) <= 400 && os.Getenv("VH_DESYNC") != "" {
+			swant, sorder := c13WithoutSkipped(want, order)
+			if err := c13CheckRootSpellings(o, filepath.Join(work, "tree.spec"), r, c, work, tree, cli, swant, sorder, id%3 == 0 || len(c.Nodes) <= 20); err != nil {
+				return err
+			}
 		}
 	case "tar-sorted", "tar-unsorted":
 		tb, emitted, err := c13BuildTar(c.Nodes, c.Source == "tar-sorted")
